@@ -101,7 +101,13 @@ func (n *JNode) Build() any {
 		}
 		return (*int)(nil)
 	case "list":
-		l := []any{}
+		// spare capacity is fixed per list NODE (Cap0: length of the list it was
+		// derived from, +1), so that a shortened copy has the same capacity
+		c := len(n.Els) + 1
+		if n.Cap > c {
+			c = n.Cap
+		}
+		l := make([]any, 0, c)
 		for _, e := range n.Els {
 			l = append(l, e.Build())
 		}
@@ -708,6 +714,37 @@ func jkClass(in []*JNode) string {
 	return "class-unknown"
 }
 
+// jShorten: a copy of the input in which the LAST non-empty nested list has lost
+// its last element but keeps its capacity (a near miss of the same input)
+func jShorten(in []*JNode) ([]*JNode, bool) {
+	b, _ := json.Marshal(in)
+	var cp []*JNode
+	json.Unmarshal(b, &cp)
+	var last *JNode
+	var walk func(n *JNode)
+	walk = func(n *JNode) {
+		if n == nil {
+			return
+		}
+		if n.T == "list" && len(n.Els) > 0 {
+			last = n
+		}
+		for _, e := range n.Els {
+			walk(e)
+		}
+		walk(n.Ex)
+	}
+	for _, n := range cp {
+		walk(n)
+	}
+	if last == nil {
+		return nil, false
+	}
+	last.Cap = len(last.Els) + 1
+	last.Els = last.Els[:len(last.Els)-1]
+	return cp, true
+}
+
 func runMarshalJunk(raw json.RawMessage) (*Result, error) {
 	var in JKInput
 	if err := json.Unmarshal(raw, &in); err != nil {
@@ -795,6 +832,20 @@ func runMarshalJunk(raw json.RawMessage) (*Result, error) {
 			_ = twin.Marshal(a2...)
 			_ = r.IsEqual(twin)
 			_ = twin.IsEqual(r)
+			// and against the decoding of a near miss (one nested row one element shorter, same capacity)
+			if short, ok := jShorten(in.In); ok {
+				var near stk.Stack
+				if in.Recv != nil {
+					near = in.Recv.Build().(stk.Stack)
+				}
+				a3 := []any{}
+				for _, a := range short {
+					a3 = append(a3, a.Build())
+				}
+				_ = near.Marshal(a3...)
+				_ = r.IsEqual(near)
+				_ = near.IsEqual(r)
+			}
 		})
 		if !unmOK {
 			u = []*JNode{}
